@@ -1146,7 +1146,14 @@ main (int argc, char **argv)
           a_set = cstr_arg (1, t2, &a_setlen);
           void *pre_data = a_h->data;
           int pre_size = a_h->size;
-          int have_pre = pre_data && pre_size >= CD_SIZE;
+          int pre_alloc = 0;
+          for (int i = 0; i < MAXLIVE; i++)
+            if (livetab[i].p && livetab[i].p == pre_data && livetab[i].kind == 0)
+              pre_alloc = (int) livetab[i].size;
+#ifdef XCV_NO_MALLOC_WRAP
+          pre_alloc = pre_data ? pre_size : 0;
+#endif
+          int have_pre = pre_data && pre_alloc >= CD_SIZE;      /* by the real allocation, not the recorded size */
           if (have_pre)
             memcpy (pre_img, pre_data, CD_SIZE);
           else
